@@ -84,6 +84,35 @@ pub fn trace_to_requests(tree: &usvg::Tree, tr: &Traced, c: &mut Corr) -> usize 
     let lines = &tr.lines;
     let n0 = c.n;
     let panic_in = |file_part: &str| tr.panic.as_ref().map(|p| p.site.contains(file_part)).unwrap_or(false);
+    // nesting of layers: (max box, layer rectangle) of the enclosing layers; feImage subtrees use
+    // their own context and are skipped for the child-box check
+    let mut stack: Vec<Option<(String, String)>> = vec![];
+    for (k, l) in lines.iter().enumerate() {
+        let t: Vec<&str> = l.split(' ').collect();
+        match t[0] {
+            "layer_in" if t.len() == 10 => {
+                if let Some(Some((pmb, pib))) = stack.last() {
+                    c.emit(&format!("childmax {} {}", pmb, pib), &format!("{} {} {} {}", t[6], t[7], t[8], t[9]));
+                }
+                // does this layer get rendered? (its layer_out follows immediately)
+                let next = lines.get(k + 1).map(|s| s.as_str()).unwrap_or("");
+                if let Some(rest) = next.strip_prefix("layer_out ") {
+                    let o: Vec<&str> = rest.split(' ').collect();
+                    stack.push(Some((format!("{} {} {} {}", t[6], t[7], t[8], t[9]), format!("{} {} {} {}", o[0], o[1], o[2], o[3]))));
+                }
+            }
+            "layer_end" => {
+                stack.pop();
+            }
+            "filter_prim" if t.get(1) == Some(&"image") => stack.push(None),
+            "filter_res" => {
+                if let Some(None) = stack.last() {
+                    stack.pop();
+                }
+            }
+            _ => {}
+        }
+    }
     let mut i = 0;
     while i < lines.len() {
         let l = &lines[i];
